@@ -204,6 +204,12 @@ func (r *Reader) Read(a []byte) (n int, err error) {
 	if err == nil && int64(n) == r.length-r.position {
 		err = io.EOF
 	}
+	if err == nil && n == 0 && len(a) > 0 {
+		// the piece is no longer there (it has been evicted,
+		// or the torrent has been deleted): request it again
+		// at the next read
+		r.requestedIndex = -1
+	}
 
 	if err != nil {
 		r.request(-1, -1)
